@@ -53,8 +53,9 @@ Definition build_archive (fmt : tformat) (e : endian) (t : tmap) : outcome archi
   a1 <- match bs with [] => Ok a0 | _ :: _ => write_bytes a0 0 bs end ;;   (* fix F10: nothing to write *)
   write_label_all a1 info.
 
-Definition serialize (m : mode) (fmt : tformat) (e : endian) (t : tmap) : outcome bytes :=
-  a <- build_archive fmt e t ;; BinFormat.serialize m a.
+(* [kf]: the sort key of label names (the message keys), see Model/BinFormat.v [name_key] *)
+Definition serialize (kf : name_key) (m : mode) (fmt : tformat) (e : endian) (t : tmap) : outcome bytes :=
+  a <- build_archive fmt e t ;; BinFormat.serialize_k kf m a.
 
 (* ------------------------------------------------------------------ string readers *)
 (* while self.tell() % 4 != 0 { self.skip(1) } : at most three steps *)
